@@ -95,6 +95,24 @@ def install(bt):
     ST.update = update
 
 
+def entry_view(sim, target):
+    """the node an oracle wrapper should read its entry state from: the node itself when nothing is pending, otherwise the same
+    node in a deep copy of the tree - an observer's read must not deliver pending changes on behalf of the algo under test"""
+    if not target.root.stale:
+        return target
+    import copy
+
+    cur = CUR
+    set_current(None)
+    try:
+        rc = copy.deepcopy(target.root)
+    finally:
+        set_current(cur)
+    if sim is not None and hasattr(sim, "fire"):
+        sim.fire("wrapped_algo_entered_stale")
+    return [n for n in rc.members if n.full_name == target.full_name][0]
+
+
 def path_of(node):
     out = [node.name]
     n = node
